@@ -1004,6 +1004,27 @@ func (ex *Exec) load(st *State, fr *Frame, p Val, ty types.Type) Val {
 				st.declare(sym, SortInt)
 				return TV(mkTerm(sym, SortInt), et)
 			}
+			if stt, ok := et.Underlying().(*types.Struct); ok && p.T.Sort == SortInt && flatStruct(stt) {
+				// the VALUE of a flat struct: a new object id whose fields are
+				// copies of the fields of *p (struct values are object ids)
+				n := st.freshAlloc("structval")
+				for i := 0; i < stt.NumFields(); i++ {
+					f := stt.Field(i)
+					hn := fieldHeapName(et, f)
+					fs := sortOf(f.Type())
+					h := st.heap(hn, ArraySort(fs))
+					st.setHeap(hn, Store(h, n, Select(h, p.T)))
+				}
+				return TV(n, et)
+			}
+			if hn, fs, ok := ptrCellHeap(et); ok && p.T.Sort == SortInt {
+				// pointer to a scalar / slice / string / interface variable: a
+				// one-cell object in the heap of its sort
+				v := Select(st.heap(hn, ArraySort(fs)), p.T)
+				ex.assumeTypeInv(st, v, et)
+				ex.knownVal(st, v, et)
+				return TV(v, et)
+			}
 		}
 	}
 	st.note("load through unsupported pointer")
@@ -1107,6 +1128,15 @@ func (ex *Exec) store(st *State, fr *Frame, p Val, v Val, pos token.Pos) {
 					h := st.heap(hn, ArraySort(fs))
 					st.setHeap(hn, Store(h, p.T, Select(h, v.T)))
 				}
+				return
+			}
+			if hn, fs, ok := ptrCellHeap(et); ok && p.T.Sort == SortInt {
+				t, _ := toTerm(et)
+				if t.Sort != fs {
+					t = st.fresh("opaque", fs)
+				}
+				ex.writeCheck(st, fr, hn, p.T, TrueT, "store through pointer", ex.pos(pos))
+				st.setHeap(hn, Store(st.heap(hn, ArraySort(fs)), p.T, t))
 				return
 			}
 		}
@@ -1748,4 +1778,15 @@ func (ex *Exec) unwrapField(named *types.Named) *types.Var {
 	}
 	unwrapFieldCache[named] = fld
 	return fld
+}
+
+// ptrCellHeap: the heap holding the variables that pointers to non-struct,
+// non-array types point to (one cell per pointer value, by sort).
+func ptrCellHeap(et types.Type) (string, string, bool) {
+	switch et.Underlying().(type) {
+	case *types.Struct, *types.Array:
+		return "", "", false
+	}
+	fs := sortOf(et)
+	return "P|" + fs, fs, true
 }
